@@ -89,3 +89,42 @@ Definition callable_check (o : oracle) (c : callable_case) : bool :=
       out_obs (assert_type_callable (rx_of o) teq0 name e a) aobs
   end.
 Definition callable_mismatches (o : oracle) (cs : list callable_case) : list N := failing (callable_check o) cs.
+
+(* ---- the walk of `describe` over the expected type (Model/DescribeWalk.v) ---- *)
+From PcoreV Require Import Model.DescribeWalk.
+
+(* the visits observed through expected.Accept(visitor, nil): the aliases by the order in which the harness
+   numbered them (= the environment it printed), the unresolved references by name *)
+Inductive wobserved := WVisits (es : list ev) | WCrash.
+(* what the describer returned (px.VerifDescribe): nothing / one unresolved-reference mismatch / anything else *)
+Inductive sobserved := SNone | SUnresolved | SOther | SCrash.
+
+Definition ev_eqb (a b : ev) : bool :=
+  match a, b with
+  | VOther, VOther => true
+  | VRef x, VRef y => str_eqb x y
+  | VAlias i, VAlias j => Nat.eqb i j
+  | _, _ => false
+  end.
+
+(* (resolved types of the aliases, expected type, observed visits, observed IsAssignable(expected, actual),
+    observed first stage of the description) *)
+Definition walk_case := (list aty * aty * wobserved * bool * sobserved)%type.
+Definition walk_check (c : walk_case) : bool :=
+  match c with
+  | (env, t, obs, oasg, sobs) =>
+      closed_env env && closed (length env) t &&
+      match accept env t, obs with
+      | WOk es, WVisits es' => list_eqb ev_eqb es es' && Nat.leb (length es') (visit_bound env t)
+      | WFault, WCrash => true
+      | _, _ => false
+      end &&
+      match describe_stage env t oasg, sobs with
+      | WOk DNoMismatch, SNone => true
+      | WOk (DUnresolved _), SUnresolved => true
+      | WOk DInternal, SOther => true
+      | WFault, SCrash => true
+      | _, _ => false
+      end
+  end.
+Definition walk_mismatches (cs : list walk_case) : list N := failing walk_check cs.
